@@ -302,9 +302,22 @@ func runOnce(c Case, dir string) (obs Obs, taint bool) {
 				st.Status = 5
 			}
 		}()
-		// let a freshly started lease goroutine read the sync id it guards
-		for i := 0; i < 3; i++ {
-			runtime.Gosched()
+		// let a freshly started lease goroutine read the sync id it guards (and cancelled ones end) before the
+		// next step of the history: the code reads ds.fullSyncID inside the goroutine, not at creation
+		if !countBroken {
+			settleLimit := time.Now().Add(500 * time.Millisecond)
+			for !server.VerifC09LeaseGoroutinesSettled() {
+				if time.Now().After(settleLimit) {
+					return obs, true
+				}
+				runtime.Gosched()
+				time.Sleep(20 * time.Microsecond)
+			}
+		} else {
+			for i := 0; i < 3; i++ {
+				runtime.Gosched()
+			}
+			time.Sleep(200 * time.Microsecond)
 		}
 		if err := observe(ds, &st); err != nil {
 			obs.Outcome, obs.Detail = "setup-error", err.Error()
